@@ -9,9 +9,9 @@ Open Scope Z_scope.
 
 (* obligation tied to the source: SaveCurrent is one transaction on the staged bucket; SaveFinished
    is ONE transaction writing the finished and the staged bucket; storeDKGOutput saves the group
-   file, then the share file; Reset removes the share, then the group; executeAndFinishDKG commits
+   file, then the share file; Reset removes the group, then the share; executeAndFinishDKG commits
    the database before handing the result over; a beacon Put is one transaction with one Put;
-   key.Save truncates and rewrites the target file in place; callbackStore.Put writes through the
+   key.Save writes a temporary file completely and renames it over the target; callbackStore.Put writes through the
    underlying store first (an error returns at once) and only then hands the beacon to the callbacks. *)
 Theorem C13_shape_obligation : crash_shape = expected_shape.
 Proof. reflexivity. Qed.
@@ -120,19 +120,19 @@ Definition r2 : drec := mkD 2 st_complete 2 2.
 Definition staged2 : drec := mkD 2 6 1 1.            (* Executing, epoch 2, on top of epoch 1 *)
 Definition left2 : drec := mkD 2 st_left 1 1.
 Definition reshare_hist : list event := [EvComplete r1; EvStage staged2; EvComplete r2].
-(* operations of reshare_hist: 0 db(e1) 1 create-group 2 write-group 3 create-share 4 write-share
-   5 db(staged) 6 db(e2) 7 create-group 8 write-group 9 create-share 10 write-share *)
+(* operations of reshare_hist: 0 db(e1) 1-3 group: temp create, temp write, rename 4-6 share: same
+   7 db(staged) 8 db(e2) 9-11 group 12-14 share *)
 
 (* the faithful model REFUTES it. Witness (i): crash right after SaveFinished of the resharing *)
 Theorem C13_files_refuted : ~ C13_files_full.
 Proof.
-  intro H. specialize (H reshare_hist (CAfter 7) eq_refl). vm_compute in H. discriminate.
+  intro H. specialize (H reshare_hist (CAfter 9) eq_refl). vm_compute in H. discriminate.
 Qed.
 Print Assumptions C13_files_refuted.
 
-(* the crash classes, each with its witness and what the restart does *)
+(* the two remaining crash classes, each with its witness and what the restart does *)
 Theorem C13_witness_db_ahead :                       (* (i) database says e+1, files are e *)
-  let s := crash (CAfter 7) (expand_all crash_shape reshare_hist) empty_state in
+  let s := crash (CAfter 9) (expand_all crash_shape reshare_hist) empty_state in
   class_db_ahead s = true /\ files_consistent s = false /\
   fin s = Some r2 /\ node_restart s = RRunning 1 1 /\
   (* first DKG: record present, no files at all: the restart fails with ErrDKGNotStarted *)
@@ -142,26 +142,47 @@ Proof. vm_compute. repeat split; reflexivity. Qed.
 Print Assumptions C13_witness_db_ahead.
 
 Theorem C13_witness_epoch_mismatch :                 (* (ii) group e+1 with share e, silently running *)
-  let s := crash (CAfter 9) (expand_all crash_shape reshare_hist) empty_state in
+  let s := crash (CAfter 12) (expand_all crash_shape reshare_hist) empty_state in
   class_epoch_mismatch s = true /\ files_consistent s = false /\ node_restart s = RRunning 2 1.
 Proof. vm_compute. repeat split; reflexivity. Qed.
 Print Assumptions C13_witness_epoch_mismatch.
 
-Theorem C13_witness_torn :                           (* (iii) truncated / torn file: the load fails *)
-  let t := crash (CTorn 8) (expand_all crash_shape reshare_hist) empty_state in
-  let e := crash (CAfter 8) (expand_all crash_shape reshare_hist) empty_state in
-  let sh := crash (CTorn 10) (expand_all crash_shape reshare_hist) empty_state in
+(* (iii) is gone: key.Save writes the text aside and renames it into place. For every history
+   (well-formed or not) and every crash point - torn writes of the temporary file included - the
+   group file and the share are each absent or a COMPLETE text: never empty, never cut *)
+Theorem C13_no_torn_key_file : forall evs cp,
+  class_torn (crash cp (expand_all crash_shape evs) empty_state) = false /\
+  clean_state (crash cp (expand_all crash_shape evs) empty_state) = true.
+Proof. rewrite C13_shape_obligation. exact no_torn_key_file. Qed.
+Print Assumptions C13_no_torn_key_file.
+
+(* a leaving node that dies inside Reset: the group file goes first, so the node is left exactly as
+   a completed Reset leaves it as far as any loader can tell (no group file = left) *)
+Example C13_leaver_reset_crash_consistent :
+  let run := expand_all crash_shape [EvComplete r1; EvStage left2; EvLeave] in
+  (* operations 8 and 9 are the two removals: crash before, between and after them *)
+  forallb (fun k => files_consistent (crash (CAfter k) run empty_state) &&
+                    negb (class_half_reset (crash (CAfter k) run empty_state))) [8; 9; 10]%nat = true /\
+  gfile (crash (CAfter 9) run empty_state) = FAbsent /\
+  sfile (crash (CAfter 9) run empty_state) = FFull 1 /\
+  (* the half-done Reset restarts exactly like the completed one *)
+  node_restart (crash (CAfter 9) run empty_state) = node_restart (crash (CAfter 10) run empty_state).
+Proof. vm_compute. repeat split; reflexivity. Qed.
+
+(* regression: the witnesses of the two repaired findings, on the shape the code had before
+   (key.Save in place, Reset removing the share first) *)
+Example C13_regression_torn_and_half_reset :
+  let run := expand_all pre_fix_shape reshare_hist in
+  let t := crash (CTorn 8) run empty_state in
+  let e := crash (CAfter 8) run empty_state in
+  let sh := crash (CTorn 10) run empty_state in
   class_torn t = true /\ node_restart t = RFailNoGroup /\
   class_torn e = true /\ node_restart e = RFailNoGroup /\
-  class_torn sh = true /\ node_restart sh = RFailShare.
-Proof. vm_compute. repeat split; reflexivity. Qed.
-Print Assumptions C13_witness_torn.
-
-Theorem C13_witness_half_reset :                     (* leaving: share removed, group still there *)
-  let s := crash (CAfter 7) (expand_all crash_shape [EvComplete r1; EvStage left2; EvLeave]) empty_state in
-  class_half_reset s = true /\ files_consistent s = false /\ node_restart s = RFailShare.
-Proof. vm_compute. repeat split; reflexivity. Qed.
-Print Assumptions C13_witness_half_reset.
+  class_torn sh = true /\ node_restart sh = RFailShare /\
+  let l := crash (CAfter 7) (expand_all pre_fix_shape [EvComplete r1; EvStage left2; EvLeave]) empty_state in
+  class_half_reset l = true /\ files_consistent l = false /\ node_restart l = RFailShare /\
+  crash_shape <> pre_fix_shape.
+Proof. vm_compute. repeat split; try reflexivity. discriminate. Qed.
 
 (* what does hold, with the carve-out spelled out: at every event boundary (i.e. for every crash
    point that is not strictly inside the persistence sequence of one DKG completion or one key
@@ -177,8 +198,8 @@ Proof.
 Qed.
 Print Assumptions C13_files_partial.
 
-(* and the carve-out is exactly the named classes: every crash point of every well-formed history
-   is either consistent or falls in class (i), (ii), (iii) or the half-reset of a leaving node *)
+(* and the carve-out is exactly the two named classes: every crash point of every well-formed
+   history (torn writes included) is either consistent or falls in class (i) or (ii) *)
 Theorem C13_files_classified : forall evs cp,
   wf_hist 0 false evs = true ->
   classified (crash cp (expand_all crash_shape evs) empty_state) = true.
